@@ -102,6 +102,21 @@ def check(ctx):
                 ctx.ob("names.identifier", f, q, False,
                        "%s renders a class through __qualname__, which is not an identifier for function-local classes "
                        "('f.<locals>.C'): the stub is not valid Python for them" % f.qualname, node=q)
+    # str() of a typing generic (typing.List[C]) spells its arguments with __qualname__ as well
+    for f in stub_fns:
+        ftf = an.ft(f)
+        for n in an.cfg(f).nodes:
+            if n.kind == "call" and isinstance(n.ast.func, ast.Name) and n.ast.func.id in ("str", "repr") and len(n.ast.args) == 1 and isinstance(n.ast.args[0], ast.Name):
+                srcs = value_sources(f, n.ast.args[0], n)
+                from_storage = any(k == "expr" and isinstance(pl, ast.Attribute) and pl.attr == "storage_type" for k, pl in srcs)
+                not_a_class = any((not tr) and isinstance(t.ast, ast.Call) and isinstance(t.ast.func, ast.Name) and t.ast.func.id == "isinstance"
+                                  and len(t.ast.args) == 2 and isinstance(t.ast.args[1], ast.Name) and t.ast.args[1].id == "type"
+                                  for t, tr in dominating_guards(an, f, n))
+                if from_storage and not_a_class:
+                    ctx.ob("names.identifier", f, n.ast, False,
+                           "%s renders a field's storage type that is not a plain class (typing.List[C], typing.Dict[K, V]) with %s(): typing "
+                           "spells the arguments by __qualname__, so a function-local config type inside a typed list gives "
+                           "'typing.List[mod.f.<locals>.C]' -- not valid Python" % (f.qualname, n.ast.func.id), node=n)
     ctx.ob("names.identifier", gat, "class names come from __name__", any(
         isinstance(x, ast.Attribute) and x.attr == "__name__" for x in ast.walk(gat.node)),
         "class names are rendered from __name__ (always an identifier)", nontrivial=False)
